@@ -78,7 +78,7 @@ func NewHTTPServer(addr string, rpcServer *rpc.Server) *http.Server {
 		}
 		verifConn(addr, conn)
 		codec := NewMsgpackCodec(conn)
-		rpcServer.ServeCodec(codec)
+		rpcServer.ServeCodec(verifServerCodecFor(addr, codec))
 	}
 	mux := http.NewServeMux()
 	mux.HandleFunc(rpc.DefaultRPCPath, rpcHandler)
